@@ -7,6 +7,7 @@ import (
 	"os"
 	"path/filepath"
 	"sort"
+	"strconv"
 	"strings"
 
 	"github.com/FollowTheProcess/spok/file"
@@ -37,7 +38,9 @@ type program struct {
 	MaxStates int            `json:"maxstates"` // safety bound; exceeding it is reported, not hidden
 	ReqSets   [][]string     `json:"reqsets"`   // request lists to explore
 	FailSets  [][]string     `json:"failsets"`  // sets of tasks whose first command exits non-zero
-	ErrSets   [][]string     `json:"errsets"`   // sets of tasks whose first command cannot be run at all: the RUNNER returns an error (the real one does for a shell syntax error)
+	// files a task writes when its last command runs: task -> [[file, content id], ...] (a generator whose output another task depends on)
+	Effects map[string][][2]any `json:"effects"`
+	ErrSets [][]string          `json:"errsets"` // sets of tasks whose first command cannot be run at all: the RUNNER returns an error (the real one does for a shell syntax error)
 }
 
 const absent = 9
@@ -267,6 +270,7 @@ type edge struct {
 }
 
 type recRunner struct {
+	effects func(task, cmd string) // applied after a command has been logged as executed
 	failing map[string]bool
 	erring  map[string]bool // the runner itself fails on this task's first command (no exit status)
 	log     []struct {
@@ -297,6 +301,9 @@ func (r *recRunner) Run(cmd string, _ iostream.IOStream, task string, _ []string
 		task, cmd string
 		status    int
 	}{task, cmd, st})
+	if r.effects != nil && st == 0 {
+		r.effects(task, cmd)
+	}
 	return shell.Result{Cmd: cmd, Status: st}, nil
 }
 
@@ -323,6 +330,20 @@ func (sb *sandbox) invoke(req []string, force bool, failing []string, crash cras
 	}
 	if crash.Kind == "cmd" {
 		rr.crashCmd = crash.K
+	}
+	if len(sb.prog.Effects) > 0 {
+		rr.effects = func(task, cmd string) {
+			if !strings.HasSuffix(cmd, strconv.Itoa(ncmds)) { // the task's last command
+				return
+			}
+			for _, fx := range sb.prog.Effects[task] {
+				f, _ := fx[0].(string)
+				c, _ := fx[1].(float64)
+				p := filepath.Join(sb.root, f)
+				os.MkdirAll(filepath.Dir(p), 0o755)
+				os.WriteFile(p, contentBytes(int(c)), 0o644)
+			}
+		}
 	}
 	count := 0
 	var names []string
